@@ -791,6 +791,22 @@ class Parser:
         This handles binary operators, conditional, sequence, and assignment
         starting from an already-parsed left operand.
         """
+        left = self._continue_assignment_expression(left, exclude_in)
+
+        # Then sequence (comma)
+        if self._check(TokenType.COMMA):
+            expressions = [left]
+            while self._match(TokenType.COMMA):
+                expressions.append(self._parse_assignment_expression(exclude_in))
+            left = SequenceExpression(expressions)
+
+        return left
+
+    def _continue_assignment_expression(
+        self, left: Node, exclude_in: bool = False
+    ) -> Node:
+        """Continue an assignment expression (one element of a list: no comma
+        operator) after its leftmost operand has been parsed."""
         # First apply binary operators
         left = self._continue_binary_expression(left, 0, exclude_in)
 
@@ -821,13 +837,6 @@ class Parser:
             op = self._advance().value
             right = self._parse_assignment_expression(exclude_in)
             left = AssignmentExpression(op, left, right)
-
-        # Then sequence (comma)
-        if self._check(TokenType.COMMA):
-            expressions = [left]
-            while self._match(TokenType.COMMA):
-                expressions.append(self._parse_assignment_expression(exclude_in))
-            left = SequenceExpression(expressions)
 
         return left
 
@@ -1173,8 +1182,12 @@ class Parser:
                 # Move up a level
                 current_depth -= 1
                 if current_depth >= 0:
-                    # Add this array as an element to the parent
-                    array_stack[current_depth].append(array_expr)
+                    # The inner array is where an element of the parent starts:
+                    # [[1][0]], [[].length], [[] + 1] have one element each
+                    element = self._continue_assignment_expression(
+                        self._continue_postfix_expression(array_expr)
+                    )
+                    array_stack[current_depth].append(element)
                     wants_element[current_depth] = False
                 else:
                     # We're done
@@ -1185,6 +1198,9 @@ class Parser:
                         UnaryExpression("void", NumericLiteral(0))
                     )
                 wants_element[current_depth] = True
+            elif not wants_element[current_depth]:
+                # Elements are separated by commas: [[1] 2] is not a list
+                raise self._error("Expected ',' or ']' after array element")
             elif self._check(TokenType.LBRACKET):
                 # Nested array - go deeper
                 self._advance()
@@ -1205,15 +1221,10 @@ class Parser:
                 if not self._check(TokenType.RBRACKET):
                     wants_element[current_depth] = True
                     if not self._match(TokenType.COMMA):
+                        # Neither ']' nor ',': this reports the syntax error
                         self._expect(
                             TokenType.RBRACKET, "Expected ']' after array elements"
                         )
-                        array_expr = ArrayExpression(array_stack[current_depth])
-                        current_depth -= 1
-                        if current_depth >= 0:
-                            array_stack[current_depth].append(array_expr)
-                        else:
-                            return array_expr
 
         # Should not reach here
         raise self._error("Unexpected end of array")
